@@ -1,2 +1,2 @@
 SPECIFICATION Spec
-INVARIANTS UsesSeeTheirValue SlotsInv ConsecutiveInv
+INVARIANTS UsesSeeTheirValue SlotsInv ConsecutiveInv RenameInv
